@@ -4,6 +4,7 @@ import (
 	"crypto/sha256"
 	"encoding/json"
 	"fmt"
+	stdbits "github.com/consensys/gnark/std/math/bits"
 	"math/big"
 	"math/rand"
 	"strings"
@@ -334,6 +335,18 @@ func expectedAccept(v vCase, x *big.Int) (bool, bool) {
 // limbStrategy substitutes the SplitLimbsHint outputs.
 func limbStrategy(name string) engine.HintStrategy {
 	return func(c *engine.HintCall) []*big.Int {
+		if name == "nonbool" {
+			// the bit decomposition of gnark (hint nBits) with everything put into digit 0: recomposes to the value, the digit is not a bit
+			if engine.KnownHint(c.Name) || c.Name == "DecomposeHint" || len(c.Honest) < 2 || len(c.Inputs) == 0 {
+				return nil
+			}
+			out := make([]*big.Int, len(c.Honest))
+			for i := range out {
+				out[i] = new(big.Int)
+			}
+			out[0] = new(big.Int).Mod(c.Inputs[len(c.Inputs)-1], bigR)
+			return out
+		}
 		if c.Name != "SplitLimbsHint" {
 			return nil
 		}
@@ -384,7 +397,7 @@ func c06Values(req c06Req, resp *drv.Response, rng *rand.Rand) error {
 			}
 			_, err = runGadget(cfg, Gadget{Kind: v.Kind, Bits: v.Bits}, []*big.Int{x}, p)
 			out = hc.Outcome(err)
-			if v.Strat != "honest" && v.Strat != "" && cfg.Counters["subst"] == 0 && v.Kind == "rangecheck" {
+			if v.Strat != "honest" && v.Strat != "" && v.Strat != "nonbool" && cfg.Counters["subst"] == 0 && v.Kind == "rangecheck" {
 				return fmt.Errorf("strategy %s never applied (dead driver)", v.Strat)
 			}
 		} else {
@@ -410,9 +423,22 @@ func c06Values(req c06Req, resp *drv.Response, rng *rand.Rand) error {
 				}
 				circ := &rcCircuit{X: toVars([]*big.Int{x}), Pad: toVars(p), Widths: []int{v.Bits}, Kind: v.Kind}
 				opts := []solver.Option{}
+				if v.Strat == "nonbool" {
+					for _, h := range stdbits.GetHints() {
+						if strings.HasSuffix(solver.GetHintName(h), "nBits") {
+							opts = append(opts, solver.OverrideHint(solver.GetHintID(h), func(m *big.Int, in []*big.Int, o []*big.Int) error {
+								for i := range o {
+									o[i].SetInt64(0)
+								}
+								o[0].Mod(in[len(in)-1], bigR)
+								return nil
+							}))
+						}
+					}
+				}
 				if v.Kind == "rangecheck" {
 					strat := v.Strat
-					if strat == "" || strat == "honest" {
+					if strat == "" || strat == "honest" || strat == "nonbool" {
 						strat = "generic"
 					}
 					st := limbStrategy(strat)
